@@ -59,7 +59,18 @@ func (f *CamelCaseFilter) Filter(input analysis.TokenStream) analysis.TokenStrea
 				p.Push(runes[i], &runes[i+1])
 			}
 		}
-		rv = append(rv, p.FlushTokens()...)
+		for _, newToken := range p.FlushTokens() {
+			// the parser derives offsets from the re-encoded term (U+FFFD for an
+			// invalid byte, terms rewritten by earlier filters): keep them inside
+			// the source token
+			if newToken.Start > token.End {
+				newToken.Start = token.End
+			}
+			if newToken.End > token.End {
+				newToken.End = token.End
+			}
+			rv = append(rv, newToken)
+		}
 	}
 	return rv
 }
